@@ -239,6 +239,10 @@ Lemma notify_remove_ents w ai : w_ents (notify_remove w ai) = w_ents w.
 Proof. unfold notify_remove. destruct (slab_get (w_archs w) ai); reflexivity. Qed.
 Lemma notify_remove_archs w ai : w_archs (notify_remove w ai) = w_archs w.
 Proof. unfold notify_remove. destruct (slab_get (w_archs w) ai); reflexivity. Qed.
+Lemma notify_refresh_aby w ai : w_aby (notify_refresh w ai) = w_aby w.
+Proof. unfold notify_refresh. destruct (slab_get (w_archs w) ai); reflexivity. Qed.
+Lemma notify_remove_aby w ai : w_aby (notify_remove w ai) = w_aby w.
+Proof. unfold notify_remove. destruct (slab_get (w_archs w) ai); reflexivity. Qed.
 Lemma notify_refresh_ents w ai : w_ents (notify_refresh w ai) = w_ents w.
 Proof. unfold notify_refresh. destruct (slab_get (w_archs w) ai); reflexivity. Qed.
 Lemma notify_refresh_archs w ai : w_archs (notify_refresh w ai) = w_archs w.
